@@ -94,6 +94,14 @@ CHECKS = {
              'the client task while the transport is suspended); an automaton checks begin/completion pairing per attempt, '
              'configuration order, payload identity, trace-context identity and the exception reaching the caller.',
         note='trusted: vmon/models/retry.py for which attempts happen; probe tracers do not raise'),
+    'C20': dict(
+        category='exploration', design_ref='DESIGN.md §3 C20',
+        technique='runtime monitor: model-based operation/call histories through the patched transport of the real mocker',
+        text='Histories of add / replace / remove / reset operations and single / batch calls (positional and named params, ids '
+             'incl. 0 and "") over 2 endpoints x 2 methods, passthrough on/off, sync and async transports are executed against '
+             'the real PjRpcMocker; after every call the reply text, refusal, passthrough invocation and mocker.calls are '
+             'compared with a rotating-list model. Short histories over a reduced alphabet are enumerated, longer ones sampled.',
+        note='trusted: the list model inside vmon/monitors/c20.py; notifications and invalid remove/replace are not generated'),
 }
 
 NOT_BUILT_REASON = 'no check registered yet in this round (monitor under construction, see DESIGN.md §3)'
